@@ -191,6 +191,73 @@ def run_case(job):
     return out
 
 
+def adjoint_job(job):
+    """The adjoint tensors themselves (before the chain rule): the objective is multilinear in the half-step propagators,
+    so entry [a, b, c, e] of the tensor of step n is the objective with the two half-step propagators of that step replaced
+    by the matrix units E[b, a] and E[e, c] - evaluated by the forward code (compute_dynamics, whose exactness C03
+    establishes).  Two non-commuting environments, controls between the steps, dense random half steps."""
+    import oqupy
+    from oqupy.gradient import compute_gradient_and_dynamics
+    case, seed = job["case"], job["seed"]
+    d, n = case["d"], case["n"]
+    r = probes.rng_for(seed, "adjoint", d, n, len(case["edims"]))
+    rho0 = probes.generic_rho(d, seed)
+    tmat = r.normal(size=(d, d)) + 1j * r.normal(size=(d, d))
+    out = []
+    try:
+        pts = eng.build_pts(case, {}, DT)
+        ctrl = eng.build_control(case, DT, 0.0) if case["ctl"] else None
+        dd = d * d
+        props = [(r.normal(size=(dd, dd)) + 1j * r.normal(size=(dd, dd)), r.normal(size=(dd, dd)) + 1j * r.normal(size=(dd, dd)))
+                 for _ in range(n)]
+
+        class PS(oqupy.ParameterizedSystem):
+            def get_propagators(self, dt, parameters):
+                return lambda step: props[step]
+
+        class FS(oqupy.System):
+            def __init__(self, pp):
+                super().__init__(np.zeros((d, d)))
+                self.pp = pp
+
+            def get_propagators(self, dt, start_time, subdiv_limit, epsrel):
+                return lambda step: self.pp[step]
+        psys = PS(lambda x: x * np.diag(np.arange(d, dtype=float)))
+        gprop, _ = compute_gradient_and_dynamics(system=psys, initial_state=rho0, target_derivative=tmat.copy(),
+                                                 process_tensors=pts, parameters=np.zeros((2 * n, 1)), control=ctrl,
+                                                 progress_type="silent")
+
+        def objective(pp):
+            f = oqupy.compute_dynamics(FS(pp), initial_state=rho0, process_tensor=pts, control=ctrl,
+                                       progress_type="silent").states[-1]
+            return np.dot(tmat.reshape(-1), f.reshape(-1))
+
+        def unit(i, j):
+            m = np.zeros((dd, dd), dtype=complex)
+            m[i, j] = 1.0
+            return m
+        if len(gprop) != n:
+            return [{"what": "adjoint-length", "observed": len(gprop)}]
+        for step in range(n):
+            g = gprop[step]
+            g = np.array(g.get_tensor() if hasattr(g, "get_tensor") else g)
+            if g.shape != (dd, dd, dd, dd):
+                return [{"what": "adjoint-shape", "step": step, "observed": list(g.shape)}]
+            entries = [tuple(int(x) for x in r.integers(0, dd, 4)) for _ in range(40 if d > 2 else 64)]
+            for (a, b, c, e) in entries:
+                pp = list(props)
+                pp[step] = (unit(b, a), unit(e, c))
+                want = objective(pp)
+                if abs(g[a, b, c, e] - want) > 1e-9 * max(1.0, abs(want)):
+                    out.append({"what": "adjoint-tensor", "step": step, "entry": [a, b, c, e], "expected": str(want),
+                                "observed": str(g[a, b, c, e])})
+                    return out
+    except Exception as ex:  # pylint: disable=broad-except
+        import traceback
+        out.append({"what": "exception", "detail": "%s: %s" % (type(ex).__name__, str(ex)[:200]), "tb": traceback.format_exc()[-400:]})
+    return out
+
+
 def run(ctx):
     quick = ctx.tier == "quick"
     configs = [
@@ -239,6 +306,20 @@ def run(ctx):
                 if v.get("order"):
                     continue        # reordering non-commuting environments changes the model: not a variant
                 jobs.append({"case": case, "variant": v, "seed": ctx.seed})
+    # the adjoint tensors themselves, on every 12th plan (dense random half steps: nothing commutes)
+    seen_a, ajobs = set(), []
+    for jb in jobs:
+        hk = repr((jb["case"]["plan"], jb["case"]["ctl"]))
+        if hk not in seen_a:
+            seen_a.add(hk)
+            if len(seen_a) % (12 if quick else 4) == 0:
+                ajobs.append({"case": jb["case"], "seed": ctx.seed})
+    for jb, mm in zip(ajobs, core.pmap(adjoint_job, ajobs, chunksize=2)):
+        c = jb["case"]
+        cid = {"d": c["d"], "edims": c["edims"], "n": c["n"], "plan": c["plan"], "ctl": c["ctl"], "variant": "adjoint tensors"}
+        ctx.case(cid, nontrivial=True)
+        for x in mm:
+            ctx.violation("C08:%denv:adjoint:%s" % (len(c["edims"]), x["what"]), "%s: %s" % (cid, x), {"adjoint_case": c})
     res = core.pmap(run_case, jobs, chunksize=4)
     for job, mm in zip(jobs, res):
         c = job["case"]
@@ -259,6 +340,11 @@ def run(ctx):
 def replay(ctx, rep):
     core._init_worker()
     c = rep["case"]
+    if "adjoint_case" in c:
+        ctx.case({"replay": True})
+        for x in adjoint_job({"case": c["adjoint_case"], "seed": rep.get("seed", 0)}):
+            ctx.violation("C08:replay:" + x["what"], str(x), c)
+        return
     mm = run_case({"case": c["case"], "variant": c["variant"], "seed": rep.get("seed", 0)})
     ctx.case({"replay": True})
     for x in mm:
